@@ -38,6 +38,32 @@ INDEX_REASONS = {
 }
 
 
+def conversion_guard(repo, call, fi):
+    """int(x) / float(x): the enclosing test must be a *full* match of x against a purely numeric pattern."""
+    import re as _re
+    var = call.args[0].id
+    cur, child = getattr(call, "_parent", None), call
+    while cur is not None and cur is not fi.node:
+        if isinstance(cur, ast.If) and any(child is b or any(child is x for x in ast.walk(b)) for b in cur.body):
+            t = cur.test
+            if isinstance(t, ast.Call) and isinstance(t.func, ast.Attribute) and t.func.attr == "fullmatch":
+                pat = None
+                if norm(t.func.value) == "re" and len(t.args) == 2 and is_name(t.args[1], var) and isinstance(t.args[0], ast.Constant):
+                    pat = t.args[0].value
+                elif len(t.args) == 1 and is_name(t.args[0], var) and isinstance(t.func.value, ast.Name):
+                    try:
+                        v = repo.module_assign(fi.module, t.func.value.id)
+                        if isinstance(v, ast.Call) and norm(v.func) == "re.compile" and isinstance(v.args[0], ast.Constant):
+                            pat = v.args[0].value
+                    except Exception:
+                        pat = None
+                if pat is not None and set(pat) <= set("-?[0-9]+\\.*"):
+                    return f"guarded by a full match of `{var}` against the numeric pattern {pat!r}"
+            return None
+        child, cur = cur, getattr(cur, "_parent", None)
+    return None
+
+
 def index_guard(n, fn):
     """A syntactically visible reason why an index / unpack site cannot fail, or None."""
     txt = norm(n)
@@ -327,6 +353,15 @@ def run(repo, chk):
                 why = INDEX_REASONS[key]
             chk.ob("R18.1", f"{key}:index-or-unpack", why is not None, f"ptera/{fi.module}.py:{n.lineno}",
                    f"`{site}` cannot fail: {why}" if why else f"`{site}` may raise IndexError/KeyError/ValueError on a user-controlled value: no length/membership guard on the path and no recorded reason")
+    # numeric conversions of selector words
+    for q in sorted(reach):
+        fi = repo.functions[q]
+        for n in walk_local(fi.node):
+            if isinstance(n, ast.Call) and isinstance(n.func, ast.Name) and n.func.id in ("int", "float") and len(n.args) == 1 and isinstance(n.args[0], ast.Name):
+                why = conversion_guard(repo, n, fi)
+                chk.ob("R18.1", f"{q}:{norm(n)}:conversion-guarded", why is not None, f"ptera/{fi.module}.py:{n.lineno}",
+                       f"`{norm(n)}` cannot fail: {why}" if why else
+                       f"`{norm(n)}` may raise ValueError: the word is not guaranteed to be a complete numeric literal (needs re.fullmatch with a purely numeric pattern on the same variable)")
     # syntax errors carry a position
     se = repo.func("opparse.Location.syntax_error")
     t = norm(se.node)
